@@ -223,6 +223,11 @@ def nat_kernel(ctx, pkg, kernel, arglist):
     return native_call(ctx, ArgList(arglist, kernel, pkg), None, None)
 
 
+def split_paths(inst, bits, skip=0):
+    """split one instance into 2^bits parallel tasks by the values of `bits` branch decisions after the first `skip`"""
+    return [dict(inst, _split=[k, bits, skip]) for k in range(1 << bits)]
+
+
 class KnownPred:
     """input-class predicate of a known finding.  pred(inst, I) must work on symbolic and concrete I."""
 
@@ -401,6 +406,7 @@ def explore_instance(ctx, fam, inst, tier, seed, known_active):
     mod = ctx.mod(fam.pkg)
     ex = Exec(mod, timeout_ms=20000 if tier == 'quick' else 60000, seed=seed)
     ex.exact_consts = True
+    ex.fork_minmax = getattr(fam, 'fork_minmax', False)
     res = dict(family=fam.name, inst=inst, paths=0, obligations=0, discharged=0, inconclusive=[], nonrepro=0,
                known_hits={}, violations=[], samples=[], bound_exceeded=0, validated=0, validation_skipped=0,
                mismatches=[], nontrivial=0, error=None, deferred_memory=0, uninit_reads=0, labels={})
@@ -408,6 +414,7 @@ def explore_instance(ctx, fam, inst, tier, seed, known_active):
     if os.environ.get('VF_TIME_SCALE'):
         budget *= float(os.environ['VF_TIME_SCALE'])
     confirmed_known = {}    # known id -> KnownPred (already confirmed by a replay in this instance)
+    split = inst.get('_split') if isinstance(inst, dict) else None   # [k, bits]: this task owns the paths whose first decisions spell k
     stack = [([], None)]
     rng = random.Random(seed * 7919 + hash(fam.name) % 1000)
     srcfile = os.path.join(repo_root(), 'src', 'hydrodiy', fam.srcfile) if fam.srcfile else None
@@ -435,9 +442,32 @@ def explore_instance(ctx, fam, inst, tier, seed, known_active):
                 bound = True
                 res['bound_exceeded'] += 1
                 res['inconclusive'].append({'reason': 'bound-exceeded', 'detail': str(e)})
-            for i in range(len(dec), len(path.dec)):
-                if path.alt[i] is not None:
-                    stack.append((path.dec[:i] + [not path.dec[i]], None if path.alt[i] == 'unknown' else path.alt[i]))
+            mine = True
+            if split is not None:
+                k, bits = split[0], split[1]
+                skip = split[2] if len(split) > 2 else 0
+                want = [bool((k >> b) & 1) for b in range(bits)]
+                key = path.dec[skip:skip + bits]
+                mis = next((i for i in range(len(key)) if key[i] != want[i]), None)
+                if mis is not None:
+                    # not this task's share of the path space: only steer towards it
+                    mine = False
+                    pos = skip + mis
+                    if pos >= len(dec) and path.alt[pos] is not None:
+                        stack.append((path.dec[:pos] + [want[mis]], None if path.alt[pos] == 'unknown' else path.alt[pos]))
+                elif len(key) < bits and k >= (1 << len(key)):
+                    mine = False      # short paths belong to the task whose remaining bits are zero
+                # decisions before `skip` are explored by every task (needed to reach its share); paths ending there belong to task 0
+                for i in range(len(dec), min(skip, len(path.dec))):
+                    if path.alt[i] is not None:
+                        stack.append((path.dec[:i] + [not path.dec[i]], None if path.alt[i] == 'unknown' else path.alt[i]))
+            if mine:
+                lo = 0 if split is None else (split[2] if len(split) > 2 else 0) + split[1]
+                for i in range(max(len(dec), lo), len(path.dec)):
+                    if path.alt[i] is not None:
+                        stack.append((path.dec[:i] + [not path.dec[i]], None if path.alt[i] == 'unknown' else path.alt[i]))
+            if not mine:
+                continue
             res['paths'] += 1
             if bound:
                 if fam.memory and path.viols:
